@@ -655,7 +655,8 @@ func (fr *Frame) enterLoop(head *ssa.BasicBlock, ord int, in *State) *State {
 		st.vars["allocptr"] = nap
 	}
 	for n, t := range st.vars {
-		if n != "allocptr" && ms.all {
+		if n != "allocptr" && (ms.all || strings.HasPrefix(n, "gl!")) {
+			// history variables may be updated by any call of the body: havoc, invariants restate them
 			st.vars[n] = ex.cx.fresh("lv_"+n, t.Sort)
 		}
 	}
